@@ -277,6 +277,24 @@ def generator_probe(rep):
     res.pop("objects", None)
 
 
+def iterator_probe(rep):
+    """items given as a one-shot iterator that DOES pickle (iter(list)): if parallel_add
+    accepts it, every item must still be processed exactly once."""
+    items = P.make_items(4)
+    names = ("cms", "hh", "hll")
+    res = P.run_sim(items, 2, names, kwargs={"state": {}}, want_objects=True,
+                    items=iter(list(range(len(items)))))
+    rep.evals()
+    if res["error"] is not None:
+        if res["error"][0] != "TypeError":
+            rep.violation({"iterator": True}, f"parallel_add(items=iter(list)) failed: {res['error']}")
+    else:
+        probs = judge(res, P.Reference(names), items, "iterator input")
+        if probs:
+            rep.violation({"iterator": True}, probs[0])
+    res.pop("objects", None)
+
+
 def pool_size(tier):
     return 8 if tier == "quick" else 16
 
@@ -420,6 +438,7 @@ def _explore(rep, salt, reals):
     rep.set("executions", execs)
     # (e)
     generator_probe(rep)
+    iterator_probe(rep)
     # (d)
     for p, spec in reals:
         real_finish(p, spec, rep)
@@ -442,6 +461,16 @@ def _explore(rep, salt, reals):
 
 def replay(case):
     quiet_shm()
+    if case.get("iterator"):
+        from ..pool import SubReporter
+
+        class R0(SubReporter):
+            def evals(self, n=1):
+                pass
+
+        r0 = R0(max_violations=10)
+        iterator_probe(r0)
+        return bool(r0.violations), {"problems": [m for _, m in r0.violations]}
     if case.get("generator"):
         from ..pool import SubReporter
 
